@@ -111,6 +111,25 @@ def t3(x, y=0.125):
 TFUNCS = [t1, t2, t3]
 
 
+# no rounding: the value identifies the exact float received
+def q1(x, y=0):
+    _body('q1', x, y)
+    return ('frac', x)
+
+
+def q2(x, y=0):
+    _body('q2', x, y)
+    return ('frac', x)
+
+
+def q3(x, y=0):
+    _body('q3', x, y)
+    return ('frac', x)
+
+
+QFUNCS = [q1, q2, q3]
+
+
 class BadValue(object):
     """an argument whose encoding fails with ValueError (not TypeError) under every keymap"""
     def __repr__(self):
